@@ -11,7 +11,7 @@ use std::time::Instant;
 pub fn cases(ctx: &Ctx) -> Vec<WCase> {
     let mut out = vec![];
     let mut r = Rng::new(ctx.seed ^ 0xC07);
-    for i in 0..ctx.n(2500, 100_000) {
+    for i in 0..ctx.n(10_000, 500_000) {
         let mut rr = r.fork(i as u64);
         let mut s = gen_death2(&mut rr, 500);
         if rr.chance(0.4) {
@@ -22,7 +22,7 @@ pub fn cases(ctx: &Ctx) -> Vec<WCase> {
         s.settle_ms = 1500;
         out.push(wcase(format!("kill-{i}"), s));
     }
-    for i in 0..ctx.n(800, 30_000) {
+    for i in 0..ctx.n(3000, 150_000) {
         let mut rr = r.fork(0x2000_0000 + i as u64);
         let mut s = gen_death2(&mut rr, 500);
         s.kill = None;
